@@ -159,24 +159,49 @@ package jsonapi
 //@ ensures attrs-def: result1 == nil ==> (forall a string, i int :: isFirst(schema, i, rsk_type(old(text(data)))) ==> (a in asSoft(result0).Type.Attrs) == (a in schema.Types[i].Attrs) && (a in schema.Types[i].Attrs ==> asSoft(result0).Type.Attrs[a] == schema.Types[i].Attrs[a]))
 //@ ensures rels-def: result1 == nil ==> (forall r string, i int :: isFirst(schema, i, rsk_type(old(text(data)))) ==> (r in asSoft(result0).Type.Rels) == (r in schema.Types[i].Rels) && (r in schema.Types[i].Rels ==> asSoft(result0).Type.Rels[r] == schema.Types[i].Rels[r]))
 //@ ensures typed: result1 == nil ==> srTyped(asSoft(result0))
+//@ ensures rel-values-one: result1 == nil ==> (forall r string :: rsk_hasRel(old(text(data)), r) && rsk_relData(old(text(data)), r) != "" ==> r in asSoft(result0).data && (asSoft(result0).Type.Rels[r].ToOne ==> relOneVal(asSoft(result0).data[r], rsk_relData(old(text(data)), r))))
+//@ ensures rel-values-many: result1 == nil ==> (forall r string :: rsk_hasRel(old(text(data)), r) && rsk_relData(old(text(data)), r) != "" ==> r in asSoft(result0).data && (!asSoft(result0).Type.Rels[r].ToOne ==> relManyVal(asSoft(result0).data[r], rsk_relData(old(text(data)), r))))
 //@ ensures payload-fields-known: result1 == nil ==> (forall a string :: rsk_hasAttr(old(text(data)), a) ==> a in asSoft(result0).Type.Attrs) && (forall r string :: rsk_hasRel(old(text(data)), r) ==> r in asSoft(result0).Type.Rels)
 //@ loop 0 invariant frame: unchanged(heap[Type]) && unchanged(heap[Schema]) && unchanged(maps[map[string]Attr]) && unchanged(maps[map[string]Rel]) && unchanged(heap[string]) && unchanged(heap[uint8]) && unchanged(heap[SoftResource]) && unchanged(maps[map[string]any])
-//@ loop 0 invariant shape: urShape(res, old(text(data))) && asSoft(res).Type == &typ && typ == pre(typ) && srReady(asSoft(res)) && fresh(asSoft(res).data)
+//@ loop 0 invariant loopframe: loopkept(heap[uint8]) && loopkept(maps[map[string]Rel]) && loopkept(maps[map[string]Attr])
+//@ loop 0 invariant shape: urShape(res, old(text(data))) && asSoft(res).Type == &typ && typ == pre(typ) && srReady(asSoft(res)) && fresh(asSoft(res).data) && res == pre(res) && asSoft(res).data == pre(asSoft(res).data)
 //@ loop 0 invariant shape-wf: attrsWf(typ.Attrs) && relsWf(typ.Rels) && fieldsDisjoint(typ) && !("id" in typ.Attrs) && !("id" in typ.Rels) && typ.Name == rsk_type(old(text(data)))
 //@ loop 0 invariant typed: srTyped(asSoft(res))
 //@ loop 0 invariant data-only-fields: forall k string :: k in asSoft(res).data ==> srIsField(asSoft(res), k)
 //@ loop 0 invariant visited-known: forall a string :: visited(a) ==> a in typ.Attrs
 //@ loop 1 invariant frame: unchanged(heap[Type]) && unchanged(heap[Schema]) && unchanged(maps[map[string]Attr]) && unchanged(maps[map[string]Rel]) && unchanged(heap[string]) && unchanged(heap[uint8]) && unchanged(heap[SoftResource]) && unchanged(maps[map[string]any])
-//@ loop 1 invariant shape: urShape(res, old(text(data))) && asSoft(res).Type == &typ && typ == pre(typ) && srReady(asSoft(res)) && fresh(asSoft(res).data)
+//@ loop 1 invariant loopframe: loopkept(heap[uint8]) && loopkept(maps[map[string]Rel]) && loopkept(maps[map[string]Attr])
+//@ loop 1 invariant shape: urShape(res, old(text(data))) && asSoft(res).Type == &typ && typ == pre(typ) && srReady(asSoft(res)) && fresh(asSoft(res).data) && res == pre(res) && asSoft(res).data == pre(asSoft(res).data)
 //@ loop 1 invariant shape-wf: attrsWf(typ.Attrs) && relsWf(typ.Rels) && fieldsDisjoint(typ) && !("id" in typ.Attrs) && !("id" in typ.Rels) && typ.Name == rsk_type(old(text(data)))
 //@ loop 1 invariant typed: srTyped(asSoft(res))
 //@ loop 1 invariant data-only-fields: forall k string :: k in asSoft(res).data ==> srIsField(asSoft(res), k)
 //@ loop 1 invariant attrs-known: forall a string :: rsk_hasAttr(old(text(data)), a) ==> a in typ.Attrs
+//@ loop 1 invariant rel-values-one: forall r2 string :: visited(r2) && rsk_relData(old(text(data)), r2) != "" ==> r2 in asSoft(res).data && (typ.Rels[r2].ToOne ==> relOneVal(asSoft(res).data[r2], rsk_relData(old(text(data)), r2)))
+//@ loop 1 invariant rel-values-many: forall r2 string :: visited(r2) && rsk_relData(old(text(data)), r2) != "" ==> r2 in asSoft(res).data && (!typ.Rels[r2].ToOne ==> relManyVal(asSoft(res).data[r2], rsk_relData(old(text(data)), r2)))
 //@ loop 1 invariant visited-known: forall r string :: visited(r) ==> r in typ.Rels
-//@ loop 2 invariant ids: fresh(ids) && len(ids) == len(idens) && unchanged(heap[string])
-//@ use SoftResource.Set: set-id keep-id checked fresh-data fresh-maps new-maps-empty typed-attrs typed-rels only-fields
+//@ loop 2 invariant ids: fresh(ids) && len(ids) == len(idens) && unchanged(heap[string]) && loopkept(heap[string], ids)
+//@ loop 2 invariant ids-so-far: forall j int :: 0 <= j && j <= $idx ==> ids[j] == idens[j].ID
+//@ use SoftResource.Set: set-id keep-id set-rel others checked fresh-data fresh-maps new-maps-empty typed-attrs typed-rels only-fields
 //@ use Attr.UnmarshalToType: error-xor-value typed-string typed-int typed-int8 typed-int16 typed-int32 typed-int64 typed-uint typed-uint8 typed-uint16 typed-uint32 typed-uint64 typed-bool typed-time-Time typed-slice-byte
 //@ use Schema.GetType: found missing named first
+//@ assert after Set#1 typ-kept: typ == pre(typ) && asSoft(res).Type == &typ && dyn(res) == type[*SoftResource]
+//@ assert after Set#1 maps-kept: loopkept(maps[map[string]Rel]) && loopkept(maps[map[string]Attr]) && loopkept(heap[uint8])
+//@ assert after Set#2 typ-kept: typ == pre(typ) && asSoft(res).Type == &typ && dyn(res) == type[*SoftResource]
+//@ assert after Set#2 maps-kept: loopkept(maps[map[string]Rel]) && loopkept(maps[map[string]Attr]) && loopkept(heap[uint8])
+//@ assert after Set#3 typ-kept: typ == pre(typ) && asSoft(res).Type == &typ && dyn(res) == type[*SoftResource]
+//@ assert after Set#3 maps-kept: loopkept(maps[map[string]Rel]) && loopkept(maps[map[string]Attr]) && loopkept(heap[uint8])
+//@ assert before Set#2 one-text: rsk_hasRel(old(text(data)), r) && text(v#1.Data) == rsk_relData(old(text(data)), r) && (err == nil ==> iden.ID == ident_id(rsk_relData(old(text(data)), r)))
+//@ assert before Set#2 prev-vals-one: forall r2 string :: r2 != r && visited#1(r2) && rsk_relData(old(text(data)), r2) != "" ==> r2 in asSoft(res).data && (typ.Rels[r2].ToOne ==> relOneVal(asSoft(res).data[r2], rsk_relData(old(text(data)), r2)))
+//@ assert before Set#2 prev-vals-many: forall r2 string :: r2 != r && visited#1(r2) && rsk_relData(old(text(data)), r2) != "" ==> r2 in asSoft(res).data && (!typ.Rels[r2].ToOne ==> relManyVal(asSoft(res).data[r2], rsk_relData(old(text(data)), r2)))
+//@ assert after Set#2 cur-val: r in asSoft(res).data && (err == nil ==> relVal(asSoft(res).data[r], typ.Rels[r], rsk_relData(old(text(data)), r)))
+//@ assert after Set#2 prev-vals2-one: forall r2 string :: r2 != r && visited#1(r2) && rsk_relData(old(text(data)), r2) != "" ==> r2 in asSoft(res).data && (typ.Rels[r2].ToOne ==> relOneVal(asSoft(res).data[r2], rsk_relData(old(text(data)), r2)))
+//@ assert after Set#2 prev-vals2-many: forall r2 string :: r2 != r && visited#1(r2) && rsk_relData(old(text(data)), r2) != "" ==> r2 in asSoft(res).data && (!typ.Rels[r2].ToOne ==> relManyVal(asSoft(res).data[r2], rsk_relData(old(text(data)), r2)))
+//@ assert before Set#3 many-text: rsk_hasRel(old(text(data)), r) && text(v#1.Data) == rsk_relData(old(text(data)), r) && (err == nil ==> len(ids) == idents_len(rsk_relData(old(text(data)), r))) && (err == nil ==> (forall j int :: 0 <= j && j < len(ids) ==> ids[j] == idents_id(rsk_relData(old(text(data)), r), j)))
+//@ assert before Set#3 prev-vals-one: forall r2 string :: r2 != r && visited#1(r2) && rsk_relData(old(text(data)), r2) != "" ==> r2 in asSoft(res).data && (typ.Rels[r2].ToOne ==> relOneVal(asSoft(res).data[r2], rsk_relData(old(text(data)), r2)))
+//@ assert before Set#3 prev-vals-many: forall r2 string :: r2 != r && visited#1(r2) && rsk_relData(old(text(data)), r2) != "" ==> r2 in asSoft(res).data && (!typ.Rels[r2].ToOne ==> relManyVal(asSoft(res).data[r2], rsk_relData(old(text(data)), r2)))
+//@ assert after Set#3 cur-val: r in asSoft(res).data && (err == nil ==> relVal(asSoft(res).data[r], typ.Rels[r], rsk_relData(old(text(data)), r)))
+//@ assert after Set#3 prev-vals2-one: forall r2 string :: r2 != r && visited#1(r2) && rsk_relData(old(text(data)), r2) != "" ==> r2 in asSoft(res).data && (typ.Rels[r2].ToOne ==> relOneVal(asSoft(res).data[r2], rsk_relData(old(text(data)), r2)))
+//@ assert after Set#3 prev-vals2-many: forall r2 string :: r2 != r && visited#1(r2) && rsk_relData(old(text(data)), r2) != "" ==> r2 in asSoft(res).data && (!typ.Rels[r2].ToOne ==> relManyVal(asSoft(res).data[r2], rsk_relData(old(text(data)), r2)))
 
 //@ spec urSoft(r Resource) = dyn(r) == type[*SoftResource] && asSoft(r) != nil && asSoft(r).Type != nil
 //@ spec urOK(r Resource, schema *Schema) = dyn(r) == type[*SoftResource] && asSoft(r) != nil && asSoft(r).Type != nil && hasType(schema, asSoft(r).Type.Name) && srTyped(asSoft(r))
@@ -283,3 +308,5 @@ package jsonapi
 //@ ensures error-xor-result: (result1 != nil) == (result0 == nil)
 //@ ensures doc-data: result1 == nil && result0.Doc != nil ==> result0.Doc.Data == nil || urOK(result0.Doc.Data, schema) || colOK(result0.Doc.Data, schema)
 //@ ensures doc-included: result1 == nil && result0.Doc != nil ==> (forall k int :: 0 <= k && k < len(result0.Doc.Included) ==> urOK(result0.Doc.Included[k], schema))
+//@ func UnmarshalResource+
+//@ assert after len#0 data-text: rsk_hasRel(old(text(data)), r) && text(v#1.Data) == rsk_relData(old(text(data)), r)
